@@ -52,7 +52,7 @@ func validKey(s h.RLWESpec, k KeySpec) error {
 	if k.LevelQ < 0 || k.LevelQ >= len(s.Q) {
 		return fmt.Errorf("levelQ out of range")
 	}
-	if len(s.P) == 0 && k.LevelP != -1 || len(s.P) > 0 && (k.LevelP < 0 || k.LevelP >= len(s.P)) {
+	if k.LevelP < -1 || k.LevelP >= len(s.P) {
 		return fmt.Errorf("levelP out of range")
 	}
 	if k.W < 0 || k.W > 30 {
@@ -218,3 +218,60 @@ func decryptDiff(params rlwe.Parameters, sk *rlwe.SecretKey, ct *rlwe.Ciphertext
 }
 
 func levelModulus(s h.RLWESpec, level int) *big.Int { return h.ProdU(s.Q[:level+1]) }
+
+// ---------------------------------------------------------------------------------------------------------------
+// inputs of a share generation must come back untouched
+
+// inputSnap is a deep copy of the inputs a party hands to GenShare / GenShareRoundOne / GenShareRoundTwo.
+type inputSnap struct {
+	names []string
+	live  [][]ringqp.Poly
+	copy  [][]ringqp.Poly
+}
+
+// snap records a named group of polynomials (the live values are kept to be compared later).
+func (s *inputSnap) snap(name string, ps ...ringqp.Poly) {
+	cp := make([]ringqp.Poly, len(ps))
+	for i := range ps {
+		cp[i] = *ps[i].CopyNew()
+	}
+	s.names = append(s.names, name)
+	s.live = append(s.live, ps)
+	s.copy = append(s.copy, cp)
+}
+
+// check reports the first input that is no longer bit-identical to its snapshot.
+func (s *inputSnap) check(tag, call string, party int) error {
+	for g := range s.names {
+		if !eqQPList(s.live[g], s.copy[g]) {
+			return h.Failf("C14:"+tag+":"+call+"-modifies-input:"+s.names[g], "party %d: %s changed its input %q (a party's secret / the reference polynomials / a received aggregate must be read-only)", party, call, s.names[g])
+		}
+	}
+	return nil
+}
+
+// gadgetPolys lists every polynomial of a gadget ciphertext.
+func gadgetPolys(g *rlwe.GadgetCiphertext) []ringqp.Poly {
+	var out []ringqp.Poly
+	for i := range g.Value {
+		for j := range g.Value[i] {
+			out = append(out, g.Value[i][j]...)
+		}
+	}
+	return out
+}
+
+// pkCheck verifies pk0 + s*pk1 = e with |e| <= bound over Q*P and returns the norm.
+func pkCheck(params rlwe.Parameters, pk *rlwe.PublicKey, s *rlwe.SecretKey, bound *big.Int) (*big.Int, error) {
+	rqp := *params.RingQP()
+	t := rqp.NewPoly()
+	t.Copy(pk.Value[0])
+	rqp.MulCoeffsMontgomeryThenAdd(pk.Value[1], s.Value, t)
+	rqp.IMForm(t, t)
+	rqp.INTT(t, t)
+	norm := centredNormQP(rqp, t)
+	if norm.Cmp(bound) > 0 {
+		return norm, fmt.Errorf("|pk0 + s*pk1| = 2^%d > n*B = %v", norm.BitLen(), bound)
+	}
+	return norm, nil
+}
